@@ -8,7 +8,8 @@ model in `C16/Model.lean`) for EVERY source `src`, frame size, latency, start se
 number `s0 < 2^16`, backlog size `0 < cap < 2^16` and EVERY list `comp` of compensation
 decisions (the wall-clock dependent pacing), and for every `wire` function (AirPlay v1,
 v2 plain, v2 with any cipher).  `Gen.C16` supplies the values the code uses today
-(`gen_valid`: FRAMES_PER_PACKET > 0, 0 < PACKET_BACKLOG_SIZE < 2^16).
+(`gen_valid`: FRAMES_PER_PACKET > 0, 1000 ≤ PACKET_BACKLOG_SIZE < 2^16 — the property's
+"most recent 1000").
 
 * `packetize_finished`     the run ends normally: the backlog insertion never raises and
                            the loop terminates;
@@ -44,7 +45,7 @@ structure Valid (c : Cfg) (cap s0 : Nat) : Prop where
 
 /-- tie A: the constants regenerated from the source tree satisfy the side conditions. -/
 theorem gen_valid :
-    0 < Gen.C16.framesPerPacket ∧ 0 < Gen.C16.packetBacklogSize ∧ Gen.C16.packetBacklogSize < 65536 ∧
+    0 < Gen.C16.framesPerPacket ∧ 1000 ≤ Gen.C16.packetBacklogSize ∧ Gen.C16.packetBacklogSize < 65536 ∧
       Gen.C16.audioHeaderLayout = [1, 1, 2, 4, 4] ∧ Gen.C16.retransmitLayout = [1, 1, 2, 2, 2] := by
   decide
 
@@ -64,7 +65,11 @@ def cEx : Cfg := { fpp := 2, frameSize := 2, latency := 3, startTs := 100, ssrc 
 def srcEx : Bytes := [1, 2, 3, 4, 5]
 def runEx : Run := packetize cEx 3 srcEx 65535 [1, 0, 2]
 
-example : Valid cEx 3 65535 := ⟨by decide, by decide, by decide, by decide, by decide⟩
+theorem validEx : Valid cEx 3 65535 := ⟨by decide, by decide, by decide, by decide, by decide⟩
+
+/-- the backlog after the first k packets of the example run, by the model's `Fifo.set`. -/
+def backlogAfterEx (k : Nat) : Option Fifo :=
+  (runEx.sent.take k).foldlM (fun f e => f.set e.pkt.seq e.dgram) (Fifo.empty 3)
 
 section
 variable {c : Cfg} {cap s0 : Nat} (hv : Valid c cap s0) (src : Bytes) (comp : List Nat)
@@ -94,6 +99,9 @@ theorem packetize_steps :
 theorem packetize_finished : (packetize c cap src s0 comp).status = .finished :=
   (packetize_steps hv src comp).1
 
+omit hv in
+example : runEx.status = .finished := by decide
+
 /-- Pacing cannot change what is sent: any two lists of compensation decisions give the
     same datagrams and the same final state. -/
 theorem comp_irrelevant (comp' : List Nat) :
@@ -103,10 +111,16 @@ theorem comp_irrelevant (comp' : List Nat) :
   obtain ⟨_, h2, s2⟩ := packetize_steps hv src comp'
   exact steps_det h1 s1 h2 s2
 
+omit hv in
+example : (packetize cEx 3 srcEx 65535 []).sent = runEx.sent ∧ [1, 0, 2] ≠ ([] : List Nat) := by decide
+
 /-- Packet i carries sequence number (s0 + i) mod 2^16. -/
 theorem seq_consecutive_mod (i : Nat) (hi : i < (packetize c cap src s0 comp).sent.length) :
     ((packetize c cap src s0 comp).sent[i]).pkt.seq = (s0 + i) % 65536 :=
   steps_seq (packetize_steps hv src comp).2.1 hv.s0_lt i hi
+
+omit hv in
+example : runEx.sent.map (·.pkt.seq) = [65535, 0, 1, 2] := by decide
 
 /-- Packet i carries timestamp latency + fpp·i: it advances by the frames per packet. -/
 theorem ts_step (i : Nat) (hi : i < (packetize c cap src s0 comp).sent.length) :
@@ -116,11 +130,17 @@ theorem ts_step (i : Nat) (hi : i < (packetize c cap src s0 comp).sent.length) :
   simp only
   omega
 
+omit hv in
+example : runEx.sent.map (·.pkt.ts) = [3, 5, 7, 9] := by decide
+
 /-- The first-packet marker is on packet 0 and on no other packet. -/
 theorem marker_first_only (i : Nat) (hi : i < (packetize c cap src s0 comp).sent.length) :
     ((packetize c cap src s0 comp).sent[i]).pkt.marker = (i == 0) := by
   rw [steps_marker (packetize_steps hv src comp).2.1 i hi]
   simp
+
+omit hv in
+example : runEx.sent.map (·.pkt.marker) = [true, false, false, false] := by decide
 
 /-- Every packet carries the session id, one packet of audio, and the datagram is what
     the protocol makes of (packet index, header, audio). -/
@@ -132,6 +152,11 @@ theorem packet_shape (i : Nat) (hi : i < (packetize c cap src s0 comp).sent.leng
   have := steps_each (packetize_steps hv src comp).2.1 i hi
   simpa [initSt] using this
 
+omit hv in
+example : runEx.sent.map (·.dgram.take 12) =
+    [[0x80, 0xE0, 0xff, 0xff, 0, 0, 0, 3, 0, 0, 0, 7], [0x80, 0x60, 0, 0, 0, 0, 0, 5, 0, 0, 0, 7],
+     [0x80, 0x60, 0, 1, 0, 0, 0, 7, 0, 0, 0, 7], [0x80, 0x60, 0, 2, 0, 0, 0, 9, 0, 0, 0, 7]] := by decide
+
 /-- Payload conservation: the concatenated payloads are the source followed by zeros —
     every source byte exactly once, in order — and the number of zeros is exact: the
     padding of the last data packet plus `padPackets` silent packets. -/
@@ -142,12 +167,19 @@ theorem payload_exact (hl : 0 < c.latency) :
     (packetize_steps hv src comp).2.2 (Or.inr rfl)).1
   simpa [initSt, zeros, padPackets, nPad] using this
 
+omit hv in
+example : 0 < cEx.latency ∧ zeros cEx srcEx.length = 11 ∧
+    (runEx.sent.map (·.pkt.payload)).flatten = [1, 2, 3, 4, 5, 0, 0, 0, 0, 0, 0, 0, 0, 0, 0, 0] := by decide
+
 /-- Number of packets: ⌈len/packet⌉ data packets and ⌈latency/fpp⌉ padding packets. -/
 theorem padding_count (hl : 0 < c.latency) :
     (packetize c cap src s0 comp).sent.length = dataPackets c src.length + padPackets c := by
   have := (steps_payload (packetize_steps hv src comp).2.1 hv.fpp hv.frame hl
     (packetize_steps hv src comp).2.2 (Or.inr rfl)).2
   simpa [initSt, dataPackets, padPackets, nPad, nData] using this
+
+omit hv in
+example : dataPackets cEx srcEx.length = 2 ∧ padPackets cEx = 2 ∧ runEx.sent.length = 4 := by decide
 
 /-- After any k packets the backlog holds exactly the last `min k cap` (seq, datagram)
     pairs, oldest first, and its keys are distinct. -/
@@ -162,11 +194,18 @@ theorem backlog_last_n (k : Nat) :
   refine ⟨st, hst, hitems, ?_, hk.nodup⟩
   rw [hitems, List.length_map, lastN_length, List.length_take]
 
+omit hv in
+example : (backlogAfterEx 2).map Fifo.keys = some [65535, 0] ∧ (backlogAfterEx 4).map Fifo.keys = some [0, 1, 2] := by
+  decide
+
 /-- ... in particular at the end of the stream. -/
 theorem backlog_final :
     (packetize c cap src s0 comp).final.backlog.items = (lastN cap (packetize c cap src s0 comp).sent).map pair := by
   obtain ⟨_, hitems⟩ := steps_backlog (packetize_steps hv src comp).2.1 hv.cap_lt [] (init_KInv hv src) (init_items src)
   rw [hitems, List.nil_append, lastN_map]
+
+omit hv in
+example : runEx.final.backlog.keys = [0, 1, 2] := by decide
 
 /-- Retransmission, in whatever state `st` the stream is after its first k packets: for
     each requested sequence number (first + i) mod 2^16, i = 0..count-1 in this order, the
@@ -182,6 +221,11 @@ theorem retransmit_identical (k : Nat) (st : St)
   obtain ⟨_, hitems⟩ := steps_backlog hst hv.cap_lt [] (init_KInv hv src) (init_items src)
   apply retransmit_of_items
   rw [hitems, List.nil_append, lastN_map]
+
+-- a request spanning the wrap, made after 3 packets (65535, 0, 1 are in the backlog); 65534 is not
+omit hv in
+example : (backlogAfterEx 3).map (fun f => (retransmit f 65534 4).map (·.take 4)) =
+    some [[0x80, 0xd6, 0xff, 0xff], [0x80, 0xd6, 0, 0], [0x80, 0xd6, 0, 1]] := by decide
 
 /-- A request for packets a, a+1, …, a+count-1 of the stream (by the sequence number of
     packet a), all of them among the last `cap` of the k sent so far, resends exactly
@@ -205,6 +249,13 @@ theorem retransmit_window (k : Nat) (st : St)
   have : ((s0 + a) % 65536 + i) % 65536 = (s0 + a + i) % 65536 := by omega
   rw [this]
 
+-- the hypotheses are satisfiable across the wrap: packets 0..2 (65535, 0, 1) requested after 3 packets
+omit hv in
+example : ∃ st, Steps cEx true (initSt cEx 3 srcEx 65535) (runEx.sent.take 3) st ∧
+    retransmit st.backlog 65535 3 = (((runEx.sent.take 3).drop 0).take 3).map (fun e => resend e.dgram) := by
+  obtain ⟨st, hst, _⟩ := backlog_last_n validEx srcEx [1, 0, 2] 3
+  exact ⟨st, hst, retransmit_window validEx srcEx [1, 0, 2] 3 st hst 0 3 (by decide) (by decide)⟩
+
 end
 
 /-! ### facts that need no run -/
@@ -227,6 +278,8 @@ theorem silence_covers_latency (c : Cfg) (hf : 0 < c.fpp) :
   rw [Nat.mul_comm] at h1
   constructor <;> omega
 
+example : 0 < cEx.fpp ∧ cEx.latency = 3 ∧ padPackets cEx * cEx.fpp = 4 ∧ tailPad cEx.packetSize 5 = 3 := by decide
+
 /-- bound on the zeros that follow the source: less than one packet of tail padding plus
     the latency plus one more packet. -/
 theorem zeros_bound (c : Cfg) (len : Nat) (hf : 0 < c.fpp) (hs : 0 < c.frameSize) :
@@ -242,6 +295,8 @@ theorem zeros_bound (c : Cfg) (len : Nat) (hf : 0 < c.fpp) (hs : 0 < c.frameSize
   unfold Cfg.packetSize at *
   omega
 
+example : zeros cEx 5 = 11 ∧ cEx.packetSize + (cEx.latency * cEx.frameSize + cEx.packetSize) = 14 := by decide
+
 /-- the 12 header bytes decode (by `AudioPacketHeader.decode`) to the packet's fields. -/
 theorem header_roundtrip (p : Packet) (h : p.fits) :
     unpack Gen.C16.audioHeaderLayout p.header =
@@ -251,6 +306,8 @@ theorem header_roundtrip (p : Packet) (h : p.fits) :
   obtain ⟨h1, h2, h3, h4⟩ := h
   simp only [Gen.C16.audioHeaderLayout, FitsAll]
   refine ⟨by omega, by split <;> omega, by omega, by omega, by omega, trivial⟩
+
+example : (⟨true, 65535, 3, 7, []⟩ : Packet).fits := by decide
 
 /-- AirPlay v1 (and v2 without a cipher): the datagram is header ++ audio. -/
 theorem dgram_v1 (count : Nat) (p : Packet) : wireV1 count p.header p.payload = p.header ++ p.payload := rfl
@@ -276,25 +333,6 @@ theorem control_request (bl : Fifo) (proto type seqno first count : Nat) (hp : p
     simp [UInt8.toNat_ofNat']; omega
   simp only [this, if_true]
 
-/-! ### non-vacuity: the example run (sequence numbers wrap, compensation happens) -/
-
-def backlogAfterEx (k : Nat) : Option Fifo :=
-  (runEx.sent.take k).foldlM (fun f e => f.set e.pkt.seq e.dgram) (Fifo.empty 3)
-
-example : runEx.status = .finished := by decide
-example : runEx.sent.map (·.pkt.seq) = [65535, 0, 1, 2] := by decide
-example : runEx.sent.map (·.pkt.ts) = [3, 5, 7, 9] := by decide
-example : runEx.sent.map (·.pkt.marker) = [true, false, false, false] := by decide
-example : (runEx.sent.map (·.pkt.payload)).flatten = [1, 2, 3, 4, 5, 0, 0, 0, 0, 0, 0, 0, 0, 0, 0, 0] := by
-  decide
-example : zeros cEx srcEx.length = 11 ∧ dataPackets cEx 5 = 2 ∧ padPackets cEx = 2 := by decide
-example : runEx.final.backlog.keys = [0, 1, 2] := by decide
--- a request spanning the wrap, made after 3 packets (65535, 0, 1 are in the backlog)
-example : (backlogAfterEx 3).map (fun f => (retransmit f 65535 3).map (·.take 4)) =
-    some [[0x80, 0xd6, 0xff, 0xff], [0x80, 0xd6, 0, 0], [0x80, 0xd6, 0, 1]] := by decide
-example : (packetize cEx 3 srcEx 65535 []).sent = runEx.sent := by decide
-example : (⟨true, 65535, 3, 7, []⟩ : Packet).fits := by decide
-
 /-! ### D11 (repaired by the `fix:` commit): the unreduced loop misses the wrap -/
 
 def d11Backlog : Fifo :=
@@ -305,6 +343,11 @@ def d11Backlog : Fifo :=
 theorem d11_unreduced_counterexample :
     (retransmitUnreduced d11Backlog 65534 4).length = 2 ∧ (retransmit d11Backlog 65534 4).length = 4 ∧
       ¬ retransmitUnreduced d11Backlog 65534 4 = retransmit d11Backlog 65534 4 := by
+  decide
+
+/-- `control_request` applies to the D11 request as the receiver encodes it (80 d5 0001 fffe 0004). -/
+example : pack Gen.C16.retransmitLayout [0x80, 0xD5, 1, 65534, 4] = [0x80, 0xd5, 0, 1, 0xff, 0xfe, 0, 4] ∧
+    controlReceived d11Backlog [0x80, 0xd5, 0, 1, 0xff, 0xfe, 0, 4] = some (retransmit d11Backlog 65534 4) := by
   decide
 
 end PyatvModel.Props.C16
